@@ -67,6 +67,37 @@ def generate(rng, tier, focus):
         if ending in ("unsub", "both"):
             acts.insert(rng.randrange(1, len(acts) + 1), ["unsub", 0])
         cases.append((scn(subjects=subj, handles=1, script_=acts), {"k": "hot"}))
+    # flat_map whose inner observables churn (three hot inner sources; an older one completes, a newer one is opened while a third
+    # is still running), ended by unsubscribe or by an inner error: every inner chain must be released
+    for _ in range(1500 if thorough else 250):
+        x, y, z = rng.sample([1, 2, 3], 3)
+        val = lambda h: rng.choice([h - 1, h + 2])          # (v mod 3) + 1 == h
+        noise = lambda hs: [["emit", rng.choice(hs), n(rng.choice([7, 8, 9]))] for _ in range(rng.choice([0, 0, 1]))]
+        evs = [["emit", 0, n(val(x))]] + noise([x]) + [["emit", 0, n(val(y))]] + noise([x, y]) + [["emit", x, C]] + noise([y]) + \
+              [["emit", 0, n(val(z))]] + noise([y, z])
+        evs += rng.choice([[["unsub", 0]], [["emit", z, e(7)]], [["emit", y, C], ["emit", 0, C], ["emit", z, C]], [["emit", y, C], ["unsub", 0]]])
+        inner = lambda h: scen.rand_chain(rng, ["hot", h], rng.choice([0, 1]), names=["map", "filter", "skip_last", "take_last", "scan", "tap"])
+        p = op("flat_map", [["mod"]], ["hot", 0], inner(1), inner(2), inner(3))
+        cases.append((scn(subjects=[["subject"]] * 4, handles=1, script_=[sub(0, p)] + evs), {"k": "flat_map-churn"}))
+    # dematerialize fed with hand-built material streams whose reified terminal is NOT the source's last act (the source stays
+    # silent or goes on afterwards): everything above dematerialize must be released all the same
+    for _ in range(1200 if thorough else 200):
+        def mat():
+            return rng.choice([["mn", rng.choice(ITEMS)], ["mn", rng.choice(ITEMS)], ["mc"], ["me", 4]])
+        ms = [n(mat()) for _ in range(rng.randrange(1, 6))]
+        if not any(m[1][0] in ("mc", "me") for m in ms):
+            ms.append(n(rng.choice([["mc"], ["me", 4]])))
+        mid = lambda srcp: scen.rand_chain(rng, srcp, rng.choice([1, 1, 2]), names=["map", "filter", "tap", "skip", "take_last", "skip_last"])
+        if rng.random() < 0.5:
+            p = scen.rand_chain(rng, op("dematerialize", [], mid(["hot", 0])), rng.choice([0, 0, 1]), names=["map", "tap"])
+            if "take_last" in sx.dumps(p) or "skip_last" in sx.dumps(p):
+                continue        # (they hold the material items back until the hot source terminates: the subscription has not ended)
+            acts = [sub(0, p)] + [["emit", 0, m] for m in ms] + rng.choice([[], [["emit", 0, n(["mn", 9])]]])
+            cases.append((scn(subjects=[["subject"]], handles=1, script_=acts), {"k": "demat-hot"}))
+        else:
+            p = scen.rand_chain(rng, op("dematerialize", [], mid(["cold", 0])), rng.choice([0, 0, 1]), names=["map", "tap"])
+            s0 = ms + rng.choice([[], [n(["mn", 9])]])           # no terminal of its own: Observable::create returns
+            cases.append((scn(srcs=[src([s0], False)], handles=1, script_=[sub(0, p)]), {"k": "demat-cold"}))
     return cases
 
 
